@@ -298,6 +298,10 @@ func (s *Server) handleRPCFreeSectors(stream net.Conn) error {
 	// modify the sector roots
 	//
 	// NOTE: must match the behavior of BuildFreeSectorsProof
+	//
+	// work on a copy: the slice belongs to the contractor and must not change
+	// unless the revision is committed
+	state.Roots = append([]types.Hash256(nil), state.Roots...)
 	for i, n := range req.Indices {
 		state.Roots[n] = state.Roots[len(state.Roots)-i-1]
 	}
